@@ -1122,6 +1122,9 @@ static iwrc _fsm_blk_allocate_lw(
         uint64_t bs = *offset_blk;
         int64_t bl = *olength_blk;
         rc = _fsm_ensure_size_lw(fsm, (bs << fsm->bpow) + (bl << fsm->bpow));
+        if (rc) { // The file cannot be extended: the region is not handed out, give it back
+          _fsm_blk_deallocate_lw(fsm, *offset_blk, *olength_blk);
+        }
       }
       return rc;
     }
@@ -1187,6 +1190,9 @@ start:
     uint64_t bs = *offset_blk;
     int64_t bl = *olength_blk;
     rc = _fsm_ensure_size_lw(fsm, (bs << fsm->bpow) + (bl << fsm->bpow));
+    if (rc) { // The file cannot be extended: the region is not handed out, give it back
+      _fsm_blk_deallocate_lw(fsm, *offset_blk, *olength_blk);
+    }
   }
   if (!rc && (opts & IWFSM_SYNC_BMAP)) {
     uint64_t *bmptr;
